@@ -3,6 +3,6 @@ namespace Kestrel
 open Generated
 
 /-- decrypt.rs::key_decrypt — magic, handshake, file key — nothing is written here  (properties: C03 C04 C13) -/
-theorem gen_flow_decrypt_rs_key_decrypt : flow_decrypt_rs_key_decrypt = ["err:Other", "read_exact", "magic_check", "err:Other", "read_exact", "noise_read", "hkdf"] := rfl
+theorem gen_flow_decrypt_rs_key_decrypt : flow_decrypt_rs_key_decrypt = ["err:Other", "read_exact", "magic_check", "err:Other", "read_exact", "noise_read", "hkdf", "call:decrypt_chunks"] := rfl
 
 end Kestrel
